@@ -133,8 +133,12 @@ API_SOURCES = [
     "@dec\ndef f(a):\n    return a + 7000\n\n\nx = 7000\n", "x = (7000 +\n     7001)\ny = 7000\n", "s = 'é'; x = 7000\ny = 7001\n",
     "x = 7000  # c\n\n\ny = 7001", "class A:\n    x = 7000\n\n    def m(self):\n        return 7001\n", "x = 7000; y = 7001; x = 7001\n",
     "if a:\n    x = 7000\nelif b:\n    x = 7001\nelse:\n    x = 7000\n",
+    # the match that starts at the first statement sits deeper in the tree than a match in a later statement
+    # (finditer yields in breadth-first tree order, not in source order)
+    "x(7000)\nx\n", "g(f(7000)).real + 2\nf(7001)\n", "a = [f(7000), [f(7001)]]\nf(7000)\n",
+    "(7000 + 7001) * 2\n7000 + 7001\n", "def f(a):\n    return a + 7000\n\n\nreturn_ = 7001 + 7000\n",
 ]
-API_PATTERNS = ["x = 7000", "x = {{v}}", "{{t}} = {{v}}", "f({{x}})", "{{a}} + {{b}}", "{{a}} + {{a}}", "{{t}} = {{v}}\n{{u}} = {{v}}",
+API_PATTERNS = ["x", "x = 7000", "x = {{v}}", "{{t}} = {{v}}", "f({{x}})", "{{a}} + {{b}}", "{{a}} + {{a}}", "{{t}} = {{v}}\n{{u}} = {{v}}",
                 "7000", "return {{x}}", "def {{f}}({{a}}):\n    {{...*}}", "{{x}} = {{v}}\n{{y}} = {{w}}\n{{x}} = {{z}}"]
 
 
